@@ -364,11 +364,11 @@ def compare7(got, ref, floors, rel=1e-10):
     relative or within its absolute floor.  NaN or inf observed never passes (the reference is finite).
     Returns (failures, worst, floor_only):
       failures   [(index, name, got, want, relative error)]
-      worst      largest relative error among the values that passed the relative test
-      floor_only number of values that passed only through their absolute floor (relative error > rel)"""
+      worst      list of seven: relative error of each value that passed the relative test (else 0)
+      floor_only indexes of the values that passed only through their absolute floor (relative error > rel)"""
     bad = []
-    worst = 0.0
-    floor_only = 0
+    worst = [0.0] * 7
+    floor_only = []
     for i in range(7):
         g, r = float(got[i]), float(ref[i])
         if g != g or g in (math.inf, -math.inf):
@@ -377,9 +377,9 @@ def compare7(got, ref, floors, rel=1e-10):
         d = abs(g - r)
         relerr = d / abs(r) if r != 0 else (0.0 if d == 0 else math.inf)
         if relerr <= rel:
-            worst = max(worst, relerr)
+            worst[i] = relerr
         elif d <= floors[i]:
-            floor_only += 1
+            floor_only.append(i)
         else:
             bad.append((i, NAMES[i], g, r, relerr))
     return bad, worst, floor_only
